@@ -403,6 +403,7 @@ def _comment_test_rule(ctx, res) -> None:
     two comments between two tokens (`# a` / `# not except here` / `except E:`) the line break after the first one makes the
     word in the second look like code, and the node's region starts inside the comment.  In the comment test of the token
     source every search for the character `#` is a last-occurrence search (`rindex` / `rfind`)."""
+    from .common import with_private_helpers
     idx = ctx.idx
     src = idx.need_class(SOURCE)
     m = src.methods.get("_good_token")
@@ -412,7 +413,9 @@ def _comment_test_rule(ctx, res) -> None:
                   and any(const_str(a) == "\n" for c in calls_in(x.node) for a in c.args)), None)
     if m is None:
         raise AnalysisError("anchor=_Source: the comment test of found tokens not found")
-    searches = [c for c in calls_in(m.node) if isinstance(c.func, ast.Attribute) and c.func.attr in ("index", "find", "rindex", "rfind") and c.args and const_str(c.args[0]) == "#"]
+    # the test proper may live in a private helper of the method (a function of the module handed the text and the offsets)
+    searches = [c for g in with_private_helpers(idx, m) for c in calls_in(g.node)
+                if isinstance(c.func, ast.Attribute) and c.func.attr in ("index", "find", "rindex", "rfind") and c.args and const_str(c.args[0]) == "#"]
     if not searches:
         raise AnalysisError("anchor=_Source._good_token: no search for '#'")
     for k, c in enumerate(searches, 1):
